@@ -56,6 +56,13 @@ Fixpoint expected_nicks (req : str) (items : list item) : list (list pn_out) :=
   | IUser x :: r => [cmd_nick x] :: expected_nicks x r
   end.
 
+(* a nickname as far as the handler can tell: not empty, no SPACE or ',', does not start like
+   a channel.  Every nickname by IsValidNick is one (valid_nick_is_nick_like), and so are the
+   non-ASCII nicknames some networks allow. *)
+Definition nick_like (n : str) : bool :=
+  match n with [] => false | c :: _ => negb (memb c chan_prefixes) end
+  && negb (memb 32 n || memb 44 n).
+
 (* hypotheses on a session: the refusals are 433/436/437, the other messages are not, and
    what the application asks for are nicknames *)
 Fixpoint well_formed (items : list item) : Prop :=
@@ -63,7 +70,7 @@ Fixpoint well_formed (items : list item) : Prop :=
   | [] => True
   | ICollide s :: r => is_collision_cmd (sh_cmd s) = true /\ well_formed r
   | IEvent e :: r => is_collision_cmd (e_cmd e) = false /\ well_formed r
-  | IUser x :: r => is_valid_nick x = true /\ well_formed r
+  | IUser x :: r => nick_like x = true /\ well_formed r
   end.
 
 
